@@ -299,7 +299,9 @@ fn skip<'a>(
     iter: &mut dyn Iterator<Item = (usize, &'a str)>,
     context: &ParseContext,
     ni: NextItem,
+    stopped_at_elif: &mut bool,
 ) -> Option<(usize, &'a str)> {
+    *stopped_at_elif = false;
     let mut scoup_count = 0;
     match ni {
         NextItem::NewLine => iter.next(),
@@ -344,6 +346,7 @@ fn skip<'a>(
                                         }
                                     } else if scoup_count == 0 {
                                         ret = if directive == Directive::ElIf {
+                                            *stopped_at_elif = true;
                                             Some((num, line))
                                         } else {
                                             iter.next()
@@ -378,9 +381,11 @@ pub fn parse_iter<'a>(
     let mut next_item = NextItem::NewLine;
 
     loop {
-        if let Some((line_num, line)) = skip(iter, context, next_item) {
-            // an .elif reached without skipping follows a branch that was assembled
-            let branch_taken = next_item != NextItem::EndIf;
+        let mut stopped_at_elif = false;
+        if let Some((line_num, line)) = skip(iter, context, next_item, &mut stopped_at_elif) {
+            // only an .elif at which the skipping of an untaken branch stopped is evaluated; any other
+            // .elif follows a branch that was assembled (possibly one ending in a nested conditional)
+            let branch_taken = !stopped_at_elif;
             next_item = NextItem::NewLine; // clear conditional flag to typical state
             let line_num = line_num + 1;
             let parsed_item = document::line(line);
